@@ -338,6 +338,9 @@ class DB:
         self.backup_fs(flush_data.state.height, flush_data.state.tx_count)
         self.history.backup(touched, flush_data.state.tx_count)
         self.flush_utxo_db(flush_data)
+        # Until self.state was lowered just now a header proof request could extend
+        # header_mc over the block being undone again; truncate it once more
+        self.header_mc.truncate(flush_data.state.height + 1)
 
         self.log_flush_stats('backup flush', flush_data, time.time() - start_time)
 
